@@ -361,4 +361,76 @@ example : rootStack [46, 46, 47, 115] = [[46, 46], [115]] ∧
     mpManifestPath [46, 46, 47, 115] (parseModelPath [109])
       = some (joinWith cSlash [[46, 46], [115], sManifests, sDefaultHost, sLibrary, [109], sLatest]) := by decide
 
+/-! ## 15. the directory `GetBlobsPath` creates -/
+
+theorem splitOn_snoc_sep (c : UInt8) (s : Bytes) : splitOn c (s ++ [c]) = splitOn c s ++ [[]] := by
+  have := splitOn_append_sep c s []
+  simpa [splitOn] using this
+
+/-- `Clean` drops a trailing separator of an absolute clean path -/
+theorem clean_absPath_trailing (comps : List Bytes) (hne : comps ≠ []) (h : ∀ c ∈ comps, CleanComp c) :
+    clean (absPath comps ++ [cSlash]) = absPath comps := by
+  have h1 : (absPath comps ++ [cSlash]).isEmpty = false := by simp [absPath]
+  have h2 : ((absPath comps ++ [cSlash]).head? == some cSlash) = true := by simp [absPath]
+  have h4 : ∀ st, cleanStep true st [] = st := by intro st; simp [cleanStep]
+  unfold clean
+  simp only [h1, h2, splitOn_snoc_sep, splitOn_absPath' comps hne h, List.foldl_append, List.foldl_cons, List.foldl_nil,
+    h4, foldl_cleanStep_clean true _ [] h]
+  simp [absPath]
+
+/-- `filepath.Dir` of a file directly below an absolute clean directory is that directory -/
+theorem pathDir_absPath (comps : List Bytes) (hne : comps ≠ []) (h : ∀ c ∈ comps, CleanComp c)
+    (f : Bytes) (hf : CleanComp f) : pathDir (absPath (comps ++ [f])) = absPath comps := by
+  have e : absPath (comps ++ [f]) = absPath comps ++ cSlash :: f := by
+    simp only [absPath, joinWith_append cSlash comps [f] hne (by simp), joinWith]
+    simp
+  unfold pathDir
+  rw [e, splitLast_append _ _ _ cSlash (by simp) (fun x hx => by simpa using hf.2.2.2 x hx)]
+  exact clean_absPath_trailing comps hne h
+
+theorem getBlobsPath_empty (rc : List Bytes) (hrc : rc ≠ []) (hs : ∀ c ∈ rc, CleanComp c) :
+    getBlobsPath (absPath rc) [] = some (absPath (rc ++ [sBlobs])) := by
+  have hall : ∀ c ∈ rc ++ [sBlobs], CleanComp c := by
+    intro c hc
+    rcases List.mem_append.mp hc with h | h
+    · exact hs c h
+    · simp only [List.mem_cons, List.not_mem_nil, or_false] at h; subst h; exact safe_blobs.toClean
+  have hroot : (absPath rc).isEmpty = false := by simp [absPath]
+  have hj : joinWith cSlash [absPath rc, sBlobs, []] = absPath (rc ++ [sBlobs]) ++ [cSlash] := by
+    simp only [absPath, joinWith_append cSlash rc [sBlobs] hrc (by simp), joinWith]
+    simp
+  simp only [getBlobsPath, List.isEmpty_nil, Bool.not_true, Bool.false_and, Bool.false_eq_true, if_false]
+  congr 1
+  show pathJoin [absPath rc, sBlobs, colonToDash []] = _
+  unfold pathJoin
+  simp only [colonToDash, List.map_nil, List.dropWhile, hroot]
+  rw [hj]
+  exact clean_absPath_trailing _ (by simp) hall
+
+/-- **The directory `GetBlobsPath` creates** (its `os.MkdirAll`, before any caller looks at the result): for every digest
+    string, nothing (refused), or exactly `<models>/blobs` — never a directory named by the digest. -/
+theorem blobs_mkdir_confined (rc : List Bytes) (hrc : rc ≠ []) (hs : ∀ c ∈ rc, CleanComp c) (d : Bytes) :
+    (getBlobsPath (absPath rc) d = none ∧ getBlobsMkdir (absPath rc) d = none) ∨
+    getBlobsMkdir (absPath rc) d = some (absPath (rc ++ [sBlobs])) := by
+  have hall : ∀ c ∈ rc ++ [sBlobs], CleanComp c := by
+    intro c hc
+    rcases List.mem_append.mp hc with h | h
+    · exact hs c h
+    · simp only [List.mem_cons, List.not_mem_nil, or_false] at h; subst h; exact safe_blobs.toClean
+  cases d with
+  | nil => right; simp [getBlobsMkdir, getBlobsPath_empty rc hrc hs]
+  | cons x xs =>
+    rcases blob_path_confined_legacy rc hrc hs (x :: xs) with h | ⟨hd, _⟩ | ⟨hex, _, _, hsafe, h⟩
+    · left; exact ⟨h, by simp [getBlobsMkdir, h]⟩
+    · cases hd
+    · right
+      have e : rc ++ [sBlobs, sSha256 ++ cDash :: hex] = (rc ++ [sBlobs]) ++ [sSha256 ++ cDash :: hex] := by simp
+      simp only [getBlobsMkdir, h, List.isEmpty_cons, Bool.false_eq_true, if_false, e]
+      exact congrArg some (pathDir_absPath _ (by simp) hall _ hsafe.toClean)
+
+example : getBlobsMkdir (absPath defaultRoot) (sSha256 ++ cColon :: List.replicate 64 97)
+    = some (absPath (defaultRoot ++ [sBlobs])) ∧
+    getBlobsMkdir (absPath defaultRoot) ([46, 46, 47] ++ sSha256 ++ cColon :: List.replicate 64 97) = none := by decide
+
+
 end OllamaVerif.C13
